@@ -62,7 +62,7 @@ public:
   const LangOptions &LO;
   Interner Files, MStacks, Regions;
   json::Object Callees;
-  json::Array Functions, Globals;
+  json::Array Functions, Globals, Enums;
 
   Extractor(ASTContext &C) : Ctx(C), SM(C.getSourceManager()), LO(C.getLangOpts()) {}
 
@@ -687,6 +687,13 @@ public:
         if (FD->doesThisDeclarationHaveABody()) handleFunction(FD);
       } else if (VarDecl *V = dyn_cast<VarDecl>(D)) {
         handleGlobal(V);
+      } else if (EnumDecl *ED = dyn_cast<EnumDecl>(D)) {
+        // enumerators with their values (identifier tables of curves / primes / errors)
+        int f = Files.get(fileOf(ED->getLocation()));
+        for (const EnumConstantDecl *EC : ED->enumerators()) {
+          Enums.push_back(json::Array{EC->getNameAsString(), (int64_t)EC->getInitVal().getExtValue(), f,
+                                      (int)lineOf(ED->getLocation())});
+        }
       }
     }
   }
@@ -710,6 +717,7 @@ public:
     root["callees"] = std::move(X.Callees);
     root["functions"] = std::move(X.Functions);
     root["globals"] = std::move(X.Globals);
+    root["enums"] = std::move(X.Enums);
     std::error_code EC;
     llvm::raw_fd_ostream OS(OutPath, EC);
     if (EC) {
